@@ -693,6 +693,9 @@ class ListItem(BlockToken):
                     lines.backstep()
                     del line_buffer[-newline_count:]
                     break
+                # ...or the item has no text yet that the line could continue
+                if not line_buffer:
+                    break
                 continuation = next_line
 
             line_buffer.append(continuation)
